@@ -177,6 +177,10 @@ def translate_c_to_sympy(source_circuit):
     # Identity as an empty circuit.
     target_circuit = 1
 
+    def control_qubits(gate):
+        """All control qubits of the gate: an index for one control, a tuple for several (as CGate expects)."""
+        return gate.control[0] if len(gate.control) == 1 else tuple(gate.control)
+
     # Map the gate information properly.
     for gate in reversed(source_circuit._gates):
         # If the parameter is a string, we use it as a variable (on a copy: the source circuit is left untouched).
@@ -189,12 +193,15 @@ def translate_c_to_sympy(source_circuit):
             target_circuit *= GATE_SYMPY[gate.name](gate.target[0])
         elif gate.name in {"PHASE", "RX", "RY", "RZ"}:
             target_circuit *= GATE_SYMPY[gate.name](gate.target[0], gate.parameter)
+        elif gate.name in {"CNOT", "CX"} and len(gate.control) > 1:
+            # Multi-controlled X: CNotGate only supports a single control
+            target_circuit *= controlled_gate(GATE_SYMPY["X"])(tuple(gate.control), gate.target[0])
         elif gate.name in {"CNOT", "CH", "CX", "CY", "CZ", "CS", "CT"}:
-            target_circuit *= GATE_SYMPY[gate.name](gate.control[0], gate.target[0])
+            target_circuit *= GATE_SYMPY[gate.name](control_qubits(gate), gate.target[0])
         elif gate.name in {"SWAP"}:
             target_circuit *= GATE_SYMPY[gate.name](gate.target[0], gate.target[1])
         elif gate.name in {"CRX", "CRY", "CRZ", "CPHASE"}:
-            target_circuit *= GATE_SYMPY[gate.name](gate.control[0], gate.target[0], gate.parameter)
+            target_circuit *= GATE_SYMPY[gate.name](control_qubits(gate), gate.target[0], gate.parameter)
         else:
             raise ValueError(f"Gate '{gate.name}' not supported on backend SYMPY")
 
